@@ -243,6 +243,13 @@ func Families(tier string) []Family {
 			c.Opts = []OptCfg{opt("bool", "v", 1), opt("string", "ver", 1), opt("incr", "verbose", 1, "version"), opt("bool", "profile", 1),
 				opt("bool", "verify", 2), opt("bool", "password", 2), opt("bool", "verb", 2)}
 			f.Defs = append(f.Defs, Def{Cfg: c, Tokens: toks, L: lim(tier, 3, 4)})
+			if mode < 2 {
+				// names with multi-byte characters abbreviated at every character boundary
+				cu := Cfg{Mode: mode}
+				cu.Nodes = []NodeCfg{rootNode(2, false)}
+				cu.Opts = []OptCfg{opt("string", "größe", 1), opt("bool", "maße", 1), opt("bool", "maßstab", 1), opt("bool", "日本語", 1)}
+				f.Defs = append(f.Defs, Def{Cfg: cu, Tokens: Ts("--grö", "--größ", "--größe=x", "--g", "--maß", "--maße", "--ma", "--日", "--日本", "-grö", "x"), L: lim(tier, 3, 3)})
+			}
 			if mode == 0 {
 				// a two-pass program: an earlier Parse visited cmd before the help option existed; afterwards --hel / --he
 				// resolve against the names the level has now
